@@ -167,7 +167,7 @@ fn plan_op_kinds(plan: &Plan) -> BTreeSet<String> {
         for sc in &ph.scripts {
             for st in sc {
                 s.insert(op_kind(&st.op).to_string());
-                if st.abandon_at > 0 {
+                if st.abandon_at > 0 || st.abandon_after_us > 0 {
                     s.insert(format!("abandoned:{}", op_kind(&st.op)));
                 }
             }
@@ -203,6 +203,9 @@ pub fn plan_digest(plan: &Plan) -> serde_json::Value {
                             }
                             if st.abandon_at > 0 {
                                 s = format!("{}!drop@{}", s, st.abandon_at);
+                            }
+                            if st.abandon_after_us > 0 {
+                                s = format!("{}!drop-after-{}us", s, st.abandon_after_us);
                             }
                             s
                         })
@@ -288,6 +291,11 @@ fn candidates(plan: &Plan) -> Vec<Plan> {
                 if st.abandon_at != 0 {
                     let mut p = plan.clone();
                     p.phases[i].scripts[j][k].abandon_at = 0;
+                    out.push(p);
+                }
+                if st.abandon_after_us != 0 {
+                    let mut p = plan.clone();
+                    p.phases[i].scripts[j][k].abandon_after_us = 0;
                     out.push(p);
                 }
                 if let Op::PublishMany { count, topic } = &st.op {
